@@ -694,6 +694,9 @@ def _phrased_symptom(a, stmts, f, b, want, bad_rows):
     alone = sum(1 for x in stmts if x['t'] == 'assoc' and x['rel'] == a['rel']) == 1
     if not alone:
         return True                                   # the link may land on the other association of the number
+    if set(a['tkeys']) & _referential(stmts, a['tk']):
+        return True                                   # its identifying attributes are read through links, which the
+                                                      # finding may have made in the wrong direction: not predicted here
     if f != b:
         return False
     if a['sk'] == a['tk']:
